@@ -134,6 +134,16 @@ pub fn run(
     max_steps: usize,
     choose: &mut dyn FnMut(&[usize], usize) -> usize,
 ) -> RunResult {
+    run_observed(bodies, enabled, max_steps, &mut |r, k, _| choose(r, k))
+}
+
+/// Like `run`, but the chooser also sees the trace recorded so far (for directed schedules).
+pub fn run_observed(
+    bodies: Vec<Box<dyn FnOnce() + Send + 'static>>,
+    enabled: fn(u32) -> bool,
+    max_steps: usize,
+    choose: &mut dyn FnMut(&[usize], usize, &[Step]) -> usize,
+) -> RunResult {
     install();
     let sh = shared().clone();
     let n = bodies.len();
@@ -189,7 +199,7 @@ pub fn run(
             break;
         }
         let t = if steps < max_steps {
-            let k = choose(&runnable, steps);
+            let k = choose(&runnable, steps, &g.trace);
             runnable[k % runnable.len()]
         } else {
             // drain without recording, round-robin (lock-free code terminates under a fair schedule)
